@@ -159,6 +159,36 @@ func hbSession(p *hsPlan, c vs.Chooser) []byte {
 				fr.WriteContinuation(nextID, false, hb.Bytes())
 			}
 			nextID += 2
+		case "rawframes":
+			// frames of every type with payload lengths around the type's fixed
+			// size and pad-length octets around the payload length
+			h := uint64(b.a)*65537 + uint64(b.b) + 1
+			next := func(k int) int {
+				h ^= h << 13
+				h ^= h >> 7
+				h ^= h << 17
+				return int(h % uint64(k))
+			}
+			for i := 0; i < 1+n%24; i++ {
+				typ := FrameType([]byte{0, 1, 2, 3, 4, 5, 6, 7, 8, 9, 0x10, 0x42}[next(12)])
+				flags := Flags([]byte{0, 0x8, 0x20, 0x28, 0x2c, 0x24, 0x0c, 0x4, 0x1, 0x5, 0x9, 0xff}[next(12)])
+				l := []int{0, 1, 2, 3, 4, 5, 6, 7, 8, 9, 12, 20}[next(12)]
+				pl := make([]byte, l)
+				for k := range pl {
+					pl[k] = byte(next(256))
+				}
+				if l > 0 {
+					cand := []int{0, l - 1, l, l - 2, l - 5, l - 6, l - 7, 255, l + 1}[next(9)]
+					if cand >= 0 && cand < 256 {
+						pl[0] = byte(cand)
+					}
+				}
+				sid := []uint32{0, 1, nextID, nextID + 2, 2}[next(5)]
+				if typ == FrameHeaders && sid == nextID {
+					nextID += 2
+				}
+				fr.WriteRawFrame(typ, flags, sid, pl)
+			}
 		case "flood-emptydata":
 			id := uint32(1)
 			for i := 0; i < n*40; i++ {
